@@ -1355,6 +1355,9 @@ def run(ctx):
             ctx.corr_broken('acceptance', {'text': cases[i]['text']}, 'accepted' if got_ok else 'rejected', 'accepted' if a else 'rejected')
     # the full model (tables + all 90 semantic actions, coq/C06/Actions.v) builds, node by node, the tree the real parser builds
     act_cov, act_dis = actions_section(ctx, cases, impl)
+    # text -> tokens: the real lexer (dv tokens over the verif_tokens hook) against coq/C06/Lexer.v, props/c06lex.py
+    from props import c06lex
+    lex_cov = c06lex.lexer_section(ctx, sys.modules[__name__])
     for i, mj in act_dis:
         cases[i]['actions_model'] = mj if mj is not None else 'rejected'
     hist = {}
@@ -1409,7 +1412,7 @@ def run(ctx):
              'layouts tight / single space / Unicode white space / comments / several comments in a row, comment bodies adversarial (runs of 0..6 stars after the opening and before the closing, slashes, terminator look-alikes, comment openers, quotes, CR/LF/CRLF/no line end at the end of input, non-ASCII); literals in every spelling; '
              'every case with a token list is also parsed by the full model (tables + all semantic actions) and compared node by node, plus %d directed inputs over the six entry points; '
              'non-trivial = distinct input texts of non-atomic trees' % len(DIRECTED),
-        extra_cov={'renderings': hist, 'model_rendered_fragment_trees': len(owners), 'model_decoded_string_literals': len(lits), 'model_skipped_layouts': len(gaps), 'tables_acceptance_checked': len(acc_cases), 'tables_acceptance_disagreements': acc_bad, 'model_failures': model_failures, **act_cov,
+        extra_cov={'renderings': hist, 'model_rendered_fragment_trees': len(owners), 'model_decoded_string_literals': len(lits), 'model_skipped_layouts': len(gaps), 'tables_acceptance_checked': len(acc_cases), 'tables_acceptance_disagreements': acc_bad, 'model_failures': model_failures, **act_cov, **lex_cov,
                    'tables': 'Gen/LalrTables.v regenerated from feel-parser/src/lalr.rs on this run (2312 pairs + 78608 triples re-proved when it changes)'},
         assumptions=['names are single words bound in the parsing scope (multi-word names are C10)',
                      'lexical rules of the text level applied by the renderer: a keyword is followed by white space; `and`/`between` at the top level of a '
@@ -1427,6 +1430,9 @@ def replay(ctx, path):
     if not c:
         print(json.dumps(obj, indent=1)[:3000])
         return 1
+    if c.get('kind') == 'lexer':
+        from props import c06lex
+        return c06lex.replay_lexer(ctx, c)
     ctx.build_harness()
     got = ctx.run_impl('ast', [{'bind': BIND, 'e': c['text'], 'mode': c.get('mode', 'expr')}])[0]
     print('input    :', json.dumps(c['text']))
